@@ -60,8 +60,10 @@ def run(ctx):
         raise verif.ToolError("binding self-test failed: %s" % [(x.get("ok"), x.get("key")) for x in st])
 
     notes = {}
+    compiled_same = 0
     for x in res:
         obs = x.get("obs") if isinstance(x.get("obs"), dict) else {}
+        compiled_same += obs.get("schema") == "compiled-same"
         for n in obs.get("notes", []):
             k = n.split(":")[0][:60]
             notes[k] = notes.get(k, 0) + 1
@@ -76,6 +78,7 @@ def run(ctx):
         "exhaustive": True,
         "schemas": len(schemas),
         "schema_value_pairs": len(values),
+        "roundtrips_on_schemas_the_real_compiler_reproduces": compiled_same,
         "cells_by_class": by_cls,
         "random_strings_per_cell": 48 if ctx.thorough else 24,
         "drift_notes": notes,
@@ -83,6 +86,6 @@ def run(ctx):
         "selftest": "altered token and relabelled valid encoding rejected",
     })
     ctx.assumptions += [
-        "struct definitions are built directly in Machine.struct_defs (the compiler is not in the loop)",
+        "struct definitions are built directly in Machine.struct_defs; each schema is also written as policy source, parsed and compiled, and the compiled definitions are compared with them (drift if they differ)",
         "entry point Machine::deserialize_struct; the VM instruction path is covered by C25",
     ]
